@@ -230,7 +230,11 @@ func (vc *VC) structInfoOf(t types.Type, st *types.Struct) *structInfo {
 	for i := 0; i < st.NumFields(); i++ {
 		f := st.Field(i)
 		fs := vc.sortOf(f.Type()) // may recursively declare nested structs first
-		acc := smtIdent(key + "!" + f.Name())
+		fn := f.Name()
+		if fn == "_" {
+			fn = fmt.Sprintf("_blank%d", i)
+		}
+		acc := smtIdent(key + "!" + fn)
 		si.fields = append(si.fields, acc)
 		si.ftypes = append(si.ftypes, f.Type())
 		fdecl = append(fdecl, fmt.Sprintf("(%s %s)", acc, fs.Name))
